@@ -1245,6 +1245,16 @@ class Interp:
             return default
         return d[keys[i]]
 
+    def dict_find_key(self, d, key):
+        """the concrete key of d that equals the symbolic key (case split decided by the solver), or _MISSING"""
+        import z3
+        from .values import bterm
+        keys = list(d.keys())
+        conds = [bterm(sym_eq(key, k)) for k in keys]
+        none = z3.Not(z3.Or(*conds)) if conds else z3.BoolVal(True)
+        i = E.current().fork(conds + [none])
+        return _MISSING if i == len(keys) else keys[i]
+
     def setitem(self, obj, key, value):
         if isinstance(obj, Sym):
             obj[key] = value
@@ -1256,7 +1266,10 @@ class Interp:
                 obj[i] = value
                 return
             if isinstance(obj, dict):
-                raise Unmodelled("storing under a symbolic key in a real dict")
+                k = self.dict_find_key(obj, key)
+                if k is _MISSING:
+                    raise Unmodelled("storing under a new symbolic key in a real dict (%s)" % to.__name__)
+                key = k
         if to not in _PRIMS and self.is_interp_class(to):
             d = self._find_dunder(to, "__setitem__")
             if d is not None and self.interpretable(d):
@@ -1270,7 +1283,13 @@ class Interp:
             return
         to = type(obj)
         if isinstance(key, Sym):
-            raise Unmodelled("del with symbolic key")
+            if isinstance(obj, dict):
+                k = self.dict_find_key(obj, key)
+                if k is _MISSING:
+                    raise KeyError(key)
+                key = k
+            elif not (to not in _PRIMS and self.is_interp_class(to) and self._find_dunder(to, "__delitem__") is not None):
+                raise Unmodelled("del with symbolic key")
         if to not in _PRIMS and self.is_interp_class(to):
             d = self._find_dunder(to, "__delitem__")
             if d is not None and self.interpretable(d):
@@ -1313,6 +1332,9 @@ class Interp:
                 out.append(self.next_(it))
             except StopIteration:
                 return out
+
+
+_MISSING = object()
 
 
 class _GetItemIter:
